@@ -248,9 +248,77 @@ def check_batch(case, ctx):
     ctx.show(dict(workers=case["workers"], shapes=sorted(shapes), methods=[m["method"] for m in case["members"]]))
 
 
+OPS_1D = ["hs", "hs_notail", "tm01", "tm02", "tp", "tp_discrete", "fp", "swe", "sw", "gw", "goda", "alpha", "gamma", "mss", "split_band", "stats_band", "interp_freq"]
+
+
+def check_dask_1d(case, ctx):
+    """Frequency spectra (no direction dimension: what oned() returns and what non-directional instruments deliver), dask-backed
+    with any chunking of the remaining dimensions, against the same call in memory."""
+    x2 = gen.build_dataarray(case["fg"], case["dg"], case["specs"], case["dims"], dtype=case["dtype"])
+    x = x2.spec.oned().compute()
+    x = x.copy(data=np.ascontiguousarray(x.values))
+    f = np.asarray(x.freq.values, dtype=float)
+    chunks = {d: (tuple(c) if isinstance(c, list) else c) for d, c in case["chunks"].items() if d != "dir"}
+    xd = x.chunk(chunks)
+    a_, b_ = case["op"].get("a", 0.3), case["op"].get("b", 0.3)
+    fmin, fmax = float(f[0] + a_ * 0.4 * (f[-1] - f[0])), float(f[-1] - b_ * 0.4 * (f[-1] - f[0]))
+
+    def run(obj, name):
+        sp = obj.spec
+        if name == "split_band":
+            return sp.split(fmin=fmin, fmax=fmax)
+        if name == "stats_band":
+            return sp.stats(["hs", "tm02", "tp"], fmin=fmin, fmax=fmax)
+        if name == "interp_freq":
+            return sp.interp(freq=0.5 * (f[:-1] + f[1:]))
+        if name == "smooth_f":
+            return sp.smooth(freq_window=3, dir_window=1)
+        if name == "hs_notail":
+            return sp.hs(tail=False)
+        if name == "tp_discrete":
+            return sp.tp(smooth=False)
+        return getattr(sp, name)()
+
+    ctx.label("sched=" + case["sched"], "1D", "freq-chunks=%s" % ("whole" if chunks["freq"] == -1 else "split"))
+    names = OPS_1D[case["op"].get("k", 0) % 3::3] + [OPS_1D[(case["op"].get("k", 0) * 7) % len(OPS_1D)]]
+    for name in names:
+        try:
+            ra = run(x, name)
+            ra = ra.compute()
+            mem_err = None
+        except Exception as e:  # noqa: BLE001
+            mem_err = e
+        try:
+            rb = _compute(run(xd, name), case["sched"])
+            err = None
+        except Exception as e:  # noqa: BLE001
+            err = e
+        ctx.evals += 1
+        ctx.label("op=" + name)
+        if mem_err is not None:
+            if err is None or type(err) is not type(mem_err):
+                raise Violation("exception-mismatch", "%s on a frequency spectrum raises %r in memory but %r on dask-backed data" % (name, mem_err, err))
+            ctx.label("raises-in-memory-too")
+            continue
+        if err is not None:
+            raise Violation("raised", "%s on a dask-backed frequency spectrum (chunks %s, scheduler %s) raised %s(%s)" % (name, chunks, case["sched"], type(err).__name__, str(err)[:300]))
+        fam = "peak" if name in ("tp", "tp_discrete", "fp", "alpha", "gamma", "stats_band") else "width" if name in ("swe", "sw", "gw") else "stat"
+        if fam == "peak" and _ill(case, x2, "peak", name):
+            ctx.label("ill-conditioned-choice(skipped)")
+            continue
+        tol = 1e-9 if case["dtype"] == "float64" else 2e-4
+        msg = ops.compare(ra, rb, max(tol, 2e-6) if fam != "stat" else tol, fam, "%s (1D) chunks=%s sched=%s vs in-memory" % (name, chunks, case["sched"]), atol_rel=(1e-7 if fam == "width" else None))
+        if msg:
+            raise Violation("dask-differs", msg)
+    ctx.nt(True)
+    ctx.evals -= 1
+    ctx.show(dict(dims=case["dims"], nf=len(f), chunks=chunks, sched=case["sched"], ops=names))
+
+
 def facets():
     return [
         Facet("chunked", dask_case(), check_dask, quick=300, thorough=12000, qshards=10),
+        Facet("chunked_1d", dask_case(["hs", "tp"]), check_dask_1d, quick=90, thorough=4000, qshards=2),
         Facet("chunked_peaks", dask_case(["tp", "tp_discrete", "fp", "dpm", "dpspr", "alpha", "gamma", "scale_by_hs", "stats_list", "stats_band", "fit_jonswap", "ptm1_track", "dp"]), check_dask, quick=120, thorough=6000, qshards=4),
         Facet("threaded_batch", batch_case(), check_batch, quick=60, thorough=3000, qshards=2),
         Facet("threaded_batch_large", batch_case(large=True), check_batch, quick=24, thorough=800, qshards=4),
